@@ -639,7 +639,7 @@ package websocket
 //@     ensures {C06,C02,C01} forall e: uint32 :: evcount(Broadcast, hagallpb.EntityDeleteBroadcast, EntityId, e) == old(evcount(Broadcast, hagallpb.EntityDeleteBroadcast, EntityId, e)) + ite(old(gone(S, P.ID, e)) && !flag(h.FeatureFlags, featureflag.FlagDisableEntityDeleteBroadcast), 1, 0)
 //@     ensures {C07,C01} (len(S.participants) == 0) <==> !registered(R, S)
 //@     ensures {C07,C01} len(S.participants) == 0 ==> once_done(S.closeOnce)
-//@     emits {C06,C02,C01} [when h.stopFrameHandling != nil =>> callfn(h.stopFrameHandling); when !flag(h.FeatureFlags, featureflag.FlagDisableParticipantLeaveBroadcast) =>> Broadcast(S, P, hagallpb.ParticipantLeaveBroadcast{Type: hagallpb.MsgType_MSG_TYPE_PARTICIPANT_LEAVE_BROADCAST, ParticipantId: P.ID})]
+//@     emits {C06,C02,C01} [when h.stopFrameHandling != nil =>> callfn(h.stopFrameHandling); when !flag(h.FeatureFlags, featureflag.FlagDisableParticipantLeaveBroadcast) =>> Broadcast(S, P, hagallpb.ParticipantLeaveBroadcast{Type: hagallpb.MsgType_MSG_TYPE_PARTICIPANT_LEAVE_BROADCAST, ParticipantId: P.ID}); when len(S.participants) == 1 =>> Close(S)]
 //@   complete behaviours
 //@   disjoint behaviours
 //@   loop 1:
@@ -717,6 +717,9 @@ package websocket
 //@     ensures {C07,C01} len(h.currentSession.participants) == 1 && len(h.currentSession.entities) == 0 && h.currentParticipant.ID == 1 && h.currentParticipant.Responder == respond
 //@     ensures {C07,C01} forall g: string :: g != gid(serverid(R.DiscoveryService), h.currentSession.ID) ==> ((g in R.sessions) <==> (old(once_done(R.initOnce)) && old(g in R.sessions))) && (g in R.sessions ==> R.sessions[g] == old(R.sessions[g]))
 //@     ensures {C07,C01} gaugetotal(sessions) == old(gaugetotal(sessions)) + 1
+// the basis of Session.Close's non-blocking stop signal
+//@     ensures {C07} chancap(h.currentSession.closeFrameChan) == 1
+//@     ensures {C07,C03} len(h.currentSession.frameHandlers) == 1
 //@     ensures {C01} !flag(h.FeatureFlags, featureflag.FlagDisableSessionState) ==> snapParts(h.currentSession, PS) && snapEnts(h.currentSession, ES) && snapComps(h.currentSession.entityComponents, CS)
 //@     emits {C04,C02,C01} [send(respond, hagallpb.ParticipantJoinResponse{Type: hagallpb.MsgType_MSG_TYPE_PARTICIPANT_JOIN_RESPONSE, RequestId: req.RequestId, SessionId: gid(serverid(R.DiscoveryService), h.currentSession.ID), SessionUuid: h.currentSession.SessionUUID, ParticipantId: 1}); when !flag(h.FeatureFlags, featureflag.FlagDisableSessionState) =>> send(respond, hagallpb.SessionState{Type: hagallpb.MsgType_MSG_TYPE_SESSION_STATE, Participants: bind(PS), Entities: bind(ES), EntityComponents: bind(CS)}); when !flag(h.FeatureFlags, featureflag.FlagDisableParticipantJoinBroadcast) =>> Broadcast(h.currentSession, h.currentParticipant, hagallpb.ParticipantJoinBroadcast{Type: hagallpb.MsgType_MSG_TYPE_PARTICIPANT_JOIN_BROADCAST, OriginTimestamp: req.Timestamp, ParticipantId: 1})]
 //@   behaviour join_fresh:
@@ -726,6 +729,9 @@ package websocket
 //@     ensures {C10,C05,C01} h.currentParticipant.ID == old(T.participantIDs.currentID) + 1 && !old((T.participantIDs.currentID + 1) in T.participants) && member(T, h.currentParticipant) && h.currentParticipant.Responder == respond && fresh(h.currentParticipant)
 //@     ensures {C07,C01} forall p: uint32 :: p != h.currentParticipant.ID ==> ((p in T.participants) <==> old(p in T.participants)) && (p in T.participants ==> T.participants[p] == old(T.participants[p]))
 //@     ensures {C07,C01} same_contents(T.entities) && forall t: uint32, e: uint32 :: (hasComp(T.entityComponents, t, e) <==> old(hasComp(T.entityComponents, t, e)))
+// every join registers the connection's frame callback with the session it joins (leaveSession's cancel
+// function belongs to that registration)
+//@     ensures {C07,C03} len(T.frameHandlers) == old(len(T.frameHandlers)) + 1
 //@     ensures {C01} !flag(h.FeatureFlags, featureflag.FlagDisableSessionState) ==> snapParts(h.currentSession, PS) && snapEnts(h.currentSession, ES) && snapComps(h.currentSession.entityComponents, CS)
 //@     emits {C04,C02,C01} [send(respond, hagallpb.ParticipantJoinResponse{Type: hagallpb.MsgType_MSG_TYPE_PARTICIPANT_JOIN_RESPONSE, RequestId: req.RequestId, SessionId: sid, SessionUuid: T.SessionUUID, ParticipantId: h.currentParticipant.ID}); when !flag(h.FeatureFlags, featureflag.FlagDisableSessionState) =>> send(respond, hagallpb.SessionState{Type: hagallpb.MsgType_MSG_TYPE_SESSION_STATE, Participants: bind(PS), Entities: bind(ES), EntityComponents: bind(CS)}); when !flag(h.FeatureFlags, featureflag.FlagDisableParticipantJoinBroadcast) =>> Broadcast(T, h.currentParticipant, hagallpb.ParticipantJoinBroadcast{Type: hagallpb.MsgType_MSG_TYPE_PARTICIPANT_JOIN_BROADCAST, OriginTimestamp: req.Timestamp, ParticipantId: h.currentParticipant.ID})]
 //@   behaviour switch:
@@ -1105,6 +1111,8 @@ package websocket
 //@   let H = h.Handler
 //@   requires h.Handler != nil
 //@   ensures {C08,C06} evtotal(handleDisconnect) == old(evtotal(handleDisconnect)) + 1
+// teardown order: the connection's goroutines are waited for before the scheduler they dispatch into is closed
+//@   emits {C08} [HandleConnect(H, _); wg_wait(_); scheduler_close(_)]
 //@   loop 1:
 //@     invariant unchanged(h.Handler) && h.Handler != nil && h.disconnectChan != nil && h.consumer != nil && h.dispatcher != nil
 //@     invariant {C08,C06} evtotal(handleDisconnect) == old(evtotal(handleDisconnect)) + ite(cancelled($ctx), 1, 0)
